@@ -272,7 +272,8 @@ let parse_svc_case (line : string) : svc_case =
          | None -> failwith "iface before svc")
       | "script" :: m :: rest ->
         let ret = List.mem "ret1" rest in
-        let steps = List.filter (fun t -> t <> "ret0" && t <> "ret1") rest in
+        (* 'b<id>' is a rendezvous between the handlers of two connections, 'w<ms>' a pause: no effect on what a handler does *)
+        let steps = List.filter (fun t -> t <> "ret0" && t <> "ret1" && t.[0] <> 'b' && t.[0] <> 'w') rest in
         c.scripts <- (bytes_of_hex m, prog_of (List.map parse_step steps) ret) :: c.scripts
       | "conn" :: mode :: rest ->
         let chunks = (match rest with
